@@ -46,6 +46,18 @@ pub fn analyze_bounds(
     }
 }
 
+/// The same analysis on the constraints as `Linearizer::linearize` prepares them (flattened and simplified).
+pub fn linearizer_bounds(
+    domain: &IndexMap<String, DomainVariable>,
+    constraints: &[Constraint],
+) -> BoundsReport {
+    analyze_bounds(
+        domain,
+        &crate::transformers::linearizer::normalized_for_bounds(constraints),
+        &[],
+    )
+}
+
 /// `float_lt(a, b)` of `math_utils` (crate-private there).
 pub fn float_lt_hook(a: f64, b: f64) -> bool {
     float_lt(a, b)
